@@ -260,10 +260,30 @@ func propExpressions(t *rapid.T) {
 			want = embed + fmtAny(want)
 		}
 		tag := embed + "#{" + e + "}"
+		cfgDoc := c.yaml()
+		// now and then the expression is not written in the tag but configured: the tag only refers to it
+		viaConfig := !strings.ContainsAny(e, "\"\\\n") && rapid.IntRange(0, 3).Draw(t, "exprviaconfig") == 0
+		if viaConfig {
+			cfgDoc = append(append([]byte{}, cfgDoc...), []byte("c18x:\n  expr: "+strconv.Quote(tag)+"\n")...)
+			tag = "${c18x.expr}"
+		}
 		dc := kit.DrawDecoys(t) // neighbouring fields of other tag kinds must not matter
-		obj := reflect.New(reflect.StructOf(dc.Around(reflect.StructField{Name: "F", Type: typ, Tag: reflect.StructTag("value:" + strconv.Quote(tag))})))
+		field := reflect.StructField{Name: "F", Type: typ, Tag: reflect.StructTag("value:" + strconv.Quote(tag))}
+		var obj reflect.Value
+		// ... and now and then the field sits in an embedded struct (one or two levels down) instead of on the component
+		switch rapid.IntRange(0, 3).Draw(t, "embeddedfield") {
+		case 0:
+			inner := reflect.StructOf([]reflect.StructField{field})
+			obj = reflect.New(reflect.StructOf(dc.Around(reflect.StructField{Name: "Inner", Type: inner, Anonymous: true})))
+		case 1:
+			inner := reflect.StructOf([]reflect.StructField{field})
+			mid := reflect.StructOf([]reflect.StructField{{Name: "Inner", Type: inner, Anonymous: true}})
+			obj = reflect.New(reflect.StructOf(dc.Around(reflect.StructField{Name: "Mid", Type: mid, Anonymous: true})))
+		default:
+			obj = reflect.New(reflect.StructOf(dc.Around(field)))
+		}
 		prefilled := rapid.IntRange(0, 2).Draw(t, "prefilled") == 0 && prefillNonZero(obj.Elem().FieldByName("F"))
-		out := kit.RunApp(app.SetComponents(obj.Interface()), app.SetConfigLoader(loader.NewRawLoader(c.yaml())))
+		out := kit.RunApp(app.SetComponents(obj.Interface()), app.SetConfigLoader(loader.NewRawLoader(cfgDoc)))
 		if out.OK() {
 			if err := dc.Check(obj); err != nil {
 				t.Fatalf("C18: %v%s", err, dc)
@@ -421,6 +441,11 @@ func TestValidateVar(t *testing.T) {
 			}
 			cs = append(cs, c)
 		}
+		// an order-sensitive list: omitempty in front lets a zero value pass whatever follows
+		omit := isInt && rapid.IntRange(0, 3).Draw(t, "omitempty") == 0
+		if omit {
+			cs = append([]constraint{{Name: "omitempty"}}, cs...)
+		}
 		var val any
 		var text string
 		boundary := false
@@ -476,6 +501,12 @@ func TestValidateVar(t *testing.T) {
 		}
 		ok := true
 		for _, c := range cs {
+			if c.Name == "omitempty" {
+				if x, isI := val.(int64); isI && x == 0 {
+					break // zero value: the rest of the list is not looked at
+				}
+				continue
+			}
 			if !holds(val, c) {
 				ok = false
 			}
